@@ -278,6 +278,10 @@ func Build(kind string, s Spec) runtime.Object {
 			}
 			paths = append(paths, netv1beta1.HTTPIngressPath{Backend: netv1beta1.IngressBackend{ServiceName: r}})
 		}
+		if len(s.Refs) >= 3 {
+			// a host-only rule (no http section: valid, selects nothing) in front
+			ing.Spec.Rules = append(ing.Spec.Rules, netv1beta1.IngressRule{Host: "plain.example"})
+		}
 		// rules of up to two paths each (so: several paths per rule, several rules)
 		for len(paths) > 0 {
 			k := 2
